@@ -2,3 +2,4 @@ pub mod c01;
 pub mod c04;
 pub mod c07;
 pub mod c06;
+pub mod c12;
